@@ -102,6 +102,50 @@ def mulTy : Ty → Ty → Option Ty
   | .nat, .mutez => some .mutez
   | _, _ => none
 
+/-- `dispatch_types` table of EDIV: (quotient class, remainder class) -/
+def edivTy : Ty → Ty → Option (Ty × Ty)
+  | .nat, .nat => some (.nat, .nat)
+  | .nat, .int => some (.int, .nat)
+  | .int, .nat => some (.int, .nat)
+  | .int, .int => some (.int, .nat)
+  | .mutez, .nat => some (.mutez, .mutez)
+  | .mutez, .mutez => some (.nat, .mutez)
+  | _, _ => none
+
+/-- EDIV's arithmetic: `q, r = divmod(a, b)` (floors), then `if r < 0: r += abs(b); q += 1` -/
+def pyEdiv (a b : Int) : Int × Int :=
+  let q := Int.fdiv a b
+  let r := Int.fmod a b
+  if r < 0 then (q + 1, r + Int.ofNat b.natAbs) else (q, r)
+
+/-- Python's `a & b` on ints: arbitrary precision two's complement (`-[m+1]` is `~m`) -/
+def pyAnd : Int → Int → Int
+  | .ofNat m, .ofNat n => Int.ofNat (m &&& n)
+  | .negSucc m, .ofNat n => Int.ofNat (n - (m &&& n))       -- ~m & n
+  | .ofNat m, .negSucc n => Int.ofNat (m - (m &&& n))       -- m & ~n
+  | .negSucc m, .negSucc n => Int.negSucc (m ||| n)         -- ~m & ~n = ~(m | n)
+
+/-- Python's `a | b` -/
+def pyOr : Int → Int → Int
+  | .ofNat m, .ofNat n => Int.ofNat (m ||| n)
+  | .negSucc m, .ofNat n => Int.negSucc (m - (m &&& n))     -- ~m | n = ~(m & ~n)
+  | .ofNat m, .negSucc n => Int.negSucc (n - (m &&& n))
+  | .negSucc m, .negSucc n => Int.negSucc (m &&& n)         -- ~m | ~n = ~(m & n)
+
+/-- Python's `a ^ b` -/
+def pyXor : Int → Int → Int
+  | .ofNat m, .ofNat n => Int.ofNat (m ^^^ n)
+  | .negSucc m, .ofNat n => Int.negSucc (m ^^^ n)           -- ~m ^ n = ~(m ^ n)
+  | .ofNat m, .negSucc n => Int.negSucc (m ^^^ n)
+  | .negSucc m, .negSucc n => Int.ofNat (m ^^^ n)
+
+/-- `execute_shift`: both operands `nat`, `assert int(b) < 257`; Python rejects a negative shift count -/
+def execShift (shift : Int → Nat → Int) (a b : Val) : Res Val :=
+  match a, b with
+  | .num .nat x, .num .nat y =>
+    if y < 257 then (if y < 0 then .err else numFromValue .nat (shift x y.toNat)) else .err
+  | _, _ => .err
+
 /-- Python `<` on two lists of ints (str / bytes comparison) -/
 def listLt : List Nat → List Nat → Bool
   | [], [] => false
@@ -170,6 +214,51 @@ def elementLeaves (element : Val) : List Val :=
 def updateComb (idx : Nat) (element : Val) (p : Val) : Res Val :=
   if idx % 2 = 1 then fromComb (replaceLeaf idx element 0 (iterComb false p))
   else fromComb (leavesBelow idx 0 (iterComb false p) ++ elementLeaves element)
+
+/-- EDIV after `pop2`: dispatch, `None` on a zero divisor, else `Some (Pair q r)` built by `from_value` / `from_comb` -/
+def execEdiv (a b : Val) : Res Val :=
+  match a, b with
+  | .num ta x, .num tb y =>
+    match edivTy ta tb with
+    | some (qt, rt) =>
+      if y = 0 then .ok (.none (.pair qt rt))
+      else do
+        let q ← numFromValue qt (pyEdiv x y).1
+        let r ← numFromValue rt (pyEdiv x y).2
+        let p ← fromComb [q, r]
+        pure (.some p)
+    | none => .err
+  | _, _ => .err
+
+/-- SUB_MUTEZ after `pop2` -/
+def execSubMutez (a b : Val) : Res Val :=
+  match a, b with
+  | .num .mutez x, .num .mutez y =>
+    if x < y then .ok (.none .mutez)
+    else do let r ← numFromValue .mutez (x - y); pure (.some r)
+  | _, _ => .err
+
+/-- AND after `pop2`: `dispatch_types` {(bool,bool), (nat,nat), (nat,int), (int,nat)} then `from_value(convert(a) & convert(b))` -/
+def execAnd (a b : Val) : Res Val :=
+  match a, b with
+  | .bool x, .bool y => .ok (.bool (x && y))
+  | .num .nat x, .num .nat y => numFromValue .nat (pyAnd x y)
+  | .num .nat x, .num .int y => numFromValue .nat (pyAnd x y)
+  | .num .int x, .num .nat y => numFromValue .nat (pyAnd x y)
+  | _, _ => .err
+
+/-- OR / XOR (`execute_boolean_add`): {(bool,bool), (nat,nat)} -/
+def execOr (a b : Val) : Res Val :=
+  match a, b with
+  | .bool x, .bool y => .ok (.bool (x || y))
+  | .num .nat x, .num .nat y => numFromValue .nat (pyOr x y)
+  | _, _ => .err
+
+def execXor (a b : Val) : Res Val :=
+  match a, b with
+  | .bool x, .bool y => .ok (.bool (x != y))
+  | .num .nat x, .num .nat y => numFromValue .nat (pyXor x y)
+  | _, _ => .err
 
 def strVals : List Val → Option (List (List Nat))
   | [] => some []
@@ -302,6 +391,10 @@ def step (env : Env) (i : Instr) (s : Stack) : Res Stack :=
         | some t => do let r ← numFromValue t (x * y); pure (s.push r)
         | none => .err
       | _, _ => .err
+  | .EDIV => do let (a, b, s) ← s.pop2; let r ← execEdiv a b; pure (s.push r)
+  | .LSL => do let (a, b, s) ← s.pop2; let r ← execShift (fun x n => x <<< n) a b; pure (s.push r)
+  | .LSR => do let (a, b, s) ← s.pop2; let r ← execShift (fun x n => x >>> n) a b; pure (s.push r)
+  | .SUB_MUTEZ => do let (a, b, s) ← s.pop2; let r ← execSubMutez a b; pure (s.push r)
   | .NEG => do
       let (a, s) ← s.pop1
       match a with
@@ -355,21 +448,9 @@ def step (env : Env) (i : Instr) (s : Stack) : Res Stack :=
       | .num .nat x => pure (s.push (.num .int (-x - 1)))
       | .num .int x => pure (s.push (.num .int (-x - 1)))
       | _ => .err
-  | .AND => do
-      let (a, b, s) ← s.pop2
-      match a, b with
-      | .bool x, .bool y => pure (s.push (.bool (x && y)))
-      | _, _ => .err
-  | .OR => do
-      let (a, b, s) ← s.pop2
-      match a, b with
-      | .bool x, .bool y => pure (s.push (.bool (x || y)))
-      | _, _ => .err
-  | .XOR => do
-      let (a, b, s) ← s.pop2
-      match a, b with
-      | .bool x, .bool y => pure (s.push (.bool (x != y)))
-      | _, _ => .err
+  | .AND => do let (a, b, s) ← s.pop2; let r ← execAnd a b; pure (s.push r)
+  | .OR => do let (a, b, s) ← s.pop2; let r ← execOr a b; pure (s.push r)
+  | .XOR => do let (a, b, s) ← s.pop2; let r ← execXor a b; pure (s.push r)
   | .CONCAT => do
       let (a, s) ← s.pop1
       match a with
